@@ -142,6 +142,18 @@ func (t *Term) rewrite(f func(*Term) *Term) *Term {
 // normalize applies the local algebra: projections of composites/updates.
 func normalize(t *Term) *Term {
 	switch t.Op {
+	case "call":
+		// a dynamic call whose function value is known: a bound method value
+		// m.F or a plain function
+		if t.S == "dyn" && len(t.Args) >= 1 {
+			f := t.Args[0]
+			switch {
+			case f.Op == "closure" && strings.HasPrefix(f.S, "bound:") && len(f.Args) == 1:
+				return &Term{Op: "call", S: strings.TrimPrefix(f.S, "bound:"), Args: append([]*Term{f.Args[0]}, t.Args[1:]...)}
+			case f.Op == "fn":
+				return &Term{Op: "call", S: f.S, Args: t.Args[1:]}
+			}
+		}
 	case "field":
 		return projectField(t.Args[0], t.S)
 	case "load":
@@ -330,7 +342,7 @@ func (e *termEngine) callTerm(c *ssa.CallCommon) *Term {
 	if strings.HasPrefix(name, "builtin:") {
 		return &Term{Op: strings.TrimPrefix(name, "builtin:"), Args: args}
 	}
-	return &Term{Op: "call", S: name, Args: args}
+	return normalize(&Term{Op: "call", S: name, Args: args})
 }
 
 func (e *termEngine) compute(v ssa.Value) *Term {
@@ -405,7 +417,16 @@ func (e *termEngine) compute(v ssa.Value) *Term {
 	case *ssa.MakeChan:
 		return &Term{Op: "makechan"}
 	case *ssa.MakeClosure:
-		return &Term{Op: "closure", S: shortFn(v.Fn.(*ssa.Function))}
+		cf := v.Fn.(*ssa.Function)
+		name := shortFn(cf)
+		if m := boundMethodOf(cf); m != nil {
+			name = "bound:" + shortFn(m)
+		}
+		var bs []*Term
+		for _, b := range v.Bindings {
+			bs = append(bs, e.of(b))
+		}
+		return &Term{Op: "closure", S: name, Args: bs}
 	case *ssa.Slice:
 		return e.sliceTerm(v)
 	case *ssa.Phi:
@@ -464,6 +485,30 @@ func (e *termEngine) inlineTrivial(c *ssa.CallCommon) *Term {
 	e.inlining[h] = true
 	defer delete(e.inlining, h)
 	return e.P.terms.of(ret.Results[0]).subst(m)
+}
+
+// boundMethodOf: for the synthetic wrapper of a bound method value x.M the
+// method M (receiver = the wrapper's only free variable).
+func boundMethodOf(f *ssa.Function) *ssa.Function {
+	if f == nil || !strings.HasPrefix(f.Synthetic, "bound method wrapper") || len(f.FreeVars) != 1 {
+		return nil
+	}
+	var m *ssa.Function
+	for _, b := range f.Blocks {
+		for _, in := range b.Instrs {
+			if c, ok := in.(ssa.CallInstruction); ok {
+				if sc := c.Common().StaticCallee(); sc != nil {
+					if m != nil {
+						return nil
+					}
+					m = sc
+				} else {
+					return nil // interface method value
+				}
+			}
+		}
+	}
+	return m
 }
 
 func allocID(a *ssa.Alloc) string {
